@@ -294,6 +294,7 @@ UNARY = [
     "replace_with-None", "duplicate", "duplicate-detached", "transform-inc", "transform-remove-even", "transform-raises", "transform-raises-late", "transformer-inc", "transformer-remove", "transformer-fresh",
 ]
 BINARY = ["wrap-pair", "replace_with", "replace-child", "transform-return-existing"]
+ALL_OPS = NULLARY + UNARY + BINARY  # the guided-only operations (DETACHED_WRAPS) are unary as well
 
 
 def apply_op(op: str, r: Any, a: Any) -> Any:
@@ -313,6 +314,10 @@ def apply_op(op: str, r: Any, a: Any) -> Any:
         return LZ.LReq(child=r, origin=o)
     if op == "wrap-list":
         return LZ.LList(elems=[r], origin=o)
+    if op == "wrap-detached-tuple":
+        return LZ.LTup(items=(r,), origin=o, create_detached=True)
+    if op == "wrap-detached-required":
+        return LZ.LReq(child=r, origin=o, create_detached=True)
     if op == "wrap-pair":
         return LZ.LTup(items=(r, a), origin=o)
     if op == "attach":
@@ -414,6 +419,12 @@ STALE_LATER_QUICK = ["attach", "detach", "replace_with-None"]
 DETACHED_LATER = ["replace-property", "wrap-tuple", "wrap-required", "attach", "replace_with-None"]
 
 
+# C19, guided: a detached node whose cached digest is out of date (built detached around an attached
+# child, or detached on its own, and then changed below), followed by operations that are rejected
+DETACHED_WRAPS = ["wrap-detached-tuple", "wrap-detached-required"]
+REJECT_LATER = ["replace-property", "attach", "duplicate", "replace_with-None"]
+
+
 THIRD_OPS = ["attach", "detach", "detach_self", "replace_with-None", "replace-property", "replace-noop", "duplicate", "transform-remove-even", "transformer-inc"]
 
 
@@ -434,7 +445,7 @@ def make_harness(K: int, which: str, first_ops: list[str] | None = None, later_o
         history: list[str] = []
         scenario: dict[str, Any] = {"forest": [LZ.ldescribe(r) for r in recipes], "handles": "h0.. = designated nodes of the forest in pre-order, then results", "history": history}
         for step in range(K):
-            allowed = first_ops if (step == 0 and first_ops) else (later_ops or NULLARY + UNARY + BINARY)
+            allowed = first_ops if (step == 0 and first_ops) else (later_ops or ALL_OPS)
             if last_ops and step == K - 1 and step >= 2:
                 allowed = last_ops
             op = e.pick(allowed, f"op{step}")
